@@ -232,6 +232,8 @@ def _ev(t, env):
         op = t[1]
         if op in ('Add', 'Sub', 'Mul'):
             return a + b if op == 'Add' else a - b if op == 'Sub' else a * b
+        if op == 'Rem':
+            return None if b == 0 else int(__import__('math').fmod(a, b))
         if op == 'Div':
             return None if b == 0 else int(a / b)
         if op in ('Lt', 'Le', 'Eq', 'Ne', 'Gt', 'Ge'):
